@@ -15,7 +15,7 @@ RULE = ('One real ContactHandler (active or passive) on the virtual clock agains
         'sends KEEPALIVE, peer stays silent, user sends a bundle, peer acknowledges (after a drawn delay, which drives the '
         'segment-size controller), user terminates.  The full grid keepalive^2 x idle x {silent, peer-keepalive just '
         'before each deadline} is enumerated.  Oracle from the timestamped octet log: negotiated keepalive == min, peer '
-        'node id / MRUs as announced (D-Bus integers saturate at 2^31-1 as the code documents); while established the '
+        'node id / MRUs as announced (exactly, also above 2^31-1 and up to 2^64-1); while established the '
         'gap after any transmission is <= K s and no KEEPALIVE when K = 0; idle time without traffic in either direction '
         '=> SESS_TERM reason 1 exactly then, and never while traffic was more recent; every segment <= peer segment '
         'MRU; a terminating endpoint that hears nothing closes by idle time.  Non-trivial = a timer actually expired in '
@@ -171,9 +171,8 @@ def execute(case):
     if hasattr(params, 'exc'):
         out.fail('params-error', 'get_session_parameters failed: %r' % (params,))
     else:
-        sat = lambda v: min(v, 2 ** 31 - 1)
-        want = {'keepalive': neg, 'peer_nodeid': peer_cfg['nodeid'], 'peer_segment_mru': sat(peer_cfg['segment_mru']),
-                'peer_transfer_mru': sat(peer_cfg['transfer_mru'])}
+        want = {'keepalive': neg, 'peer_nodeid': peer_cfg['nodeid'], 'peer_segment_mru': peer_cfg['segment_mru'],
+                'peer_transfer_mru': peer_cfg['transfer_mru']}
         for key, val in want.items():
             if params.get(key) != val:
                 out.fail('negotiated-%s' % key, 'get_session_parameters()[%r] is %r, expected %r (local keepalive %d, peer %d)'
